@@ -8846,7 +8846,17 @@ void SoPlexBase<R>::_syncLPRational(bool time)
 
    // copy LP
    _ensureRationalLP();
-   *_rationalLP = *_realLP;
+
+   if(_realLP->isScaled())
+   {
+      // with persistent scaling the real LP is stored scaled: copy the LP the user sees, not its scaled image
+      SPxLPBase<R> unscaledLP(*_realLP);
+      unscaledLP.unscaleLP();
+      *_rationalLP = unscaledLP;
+   }
+   else
+      *_rationalLP = *_realLP;
+
    _recomputeRangeTypesRational();
 
    // stop timing
